@@ -290,6 +290,11 @@ func init() {
 							case c4eliminatedMark(e):
 								rs = nil
 								st["finding:eliminated-mark"] = true
+							case c4dupLaterMark(e) && c4keepsDefault(rs):
+								// only "the evaluator resolves a default the rules eliminate"; a lost default is not
+								// this finding
+								rs = nil
+								st["finding:duplicate-unmarked-then-marked"] = true
 							}
 						}
 					}()
@@ -302,7 +307,7 @@ func init() {
 						}
 						c.Count("outcome:"+k, 1)
 					}
-					if c4nestedDefault(e) || c4eliminatedMark(e) {
+					if c4nestedDefault(e) || c4eliminatedMark(e) || c4dupLaterMark(e) {
 						c.Count("expressions_in_finding_classes", 1)
 					} else {
 						c.Count("expressions_outside_finding_classes", 1)
@@ -357,11 +362,12 @@ func init() {
 		lv := func(i int) *c4expr { return &c4expr{op: "leaf", c4leaf: c4leafSrcs[i].l, src: c4leafSrcs[i].src} }
 		or := func(marks []bool, args ...*c4expr) *c4expr { return &c4expr{op: "|", args: args, marks: marks} }
 		and := func(a, b *c4expr) *c4expr { return &c4expr{op: "&", args: []*c4expr{a, b}} }
-		ff, tf := []bool{false, false}, []bool{true, false}
+		ff, tf, ft := []bool{false, false}, []bool{true, false}, []bool{false, true}
 		run([]*c4expr{
 			or(ff, or(tf, lv(0), lv(0)), lv(1)),                          // ((*1 | 1) | 2)
 			and(or(ff, or(tf, lv(7), lv(2)), lv(8)), lv(7)),              // ((*{a: 1} | 3) | {b: 2}) & {a: 1}
 			and(or(tf, and(lv(7), lv(5)), or(ff, lv(0), lv(4))), or(tf, or(ff, lv(1), lv(4)), lv(3))), // (*({a: 1} & string) | (1 | int)) & (*(2 | int) | "a")
+			and(and(or(tf, lv(0), lv(1)), or([]bool{false, true, false}, lv(1), lv(1), lv(0))), or(ft, lv(0), lv(1))), // ((*1 | 2) & (2 | *2 | 1)) & (1 | *2)
 		}, false)
 		run(enum, true)
 		if len(enum) > 0 {
@@ -388,6 +394,15 @@ func init() {
 
 // c4cut removes from the PRNG stream the expression classes in which the pinned tree deviates from the spec
 // (recorded findings; the enumerated stream keeps them as listed instances).
+func c4keepsDefault(rs []c4result) bool {
+	for _, r := range rs {
+		if r.class != "concrete model=false impl=true" && r.class != "ambiguous-but-exported" {
+			return false
+		}
+	}
+	return true
+}
+
 func c4defaultOnly(rs []c4result) bool {
 	for _, r := range rs {
 		if !(strings.HasPrefix(r.class, "concrete ") || r.class == "default-value" || r.class == "ambiguous-but-exported") {
@@ -414,8 +429,45 @@ func c4nestedDefault(e *c4expr) bool {
 	return false
 }
 
+// c4dupLaterMark: a disjunction lists a value unmarked and, later, the same value marked (2 | *2 | 1).
+func c4dupLaterMark(e *c4expr) bool {
+	if e.op == "|" {
+		for i := range e.args {
+			for j := i + 1; j < len(e.args); j++ {
+				if e.marks[i] || !e.marks[j] {
+					continue
+				}
+				a, b := c4eval(e.args[i]), c4eval(e.args[j])
+				if len(a.v) == 1 && len(b.v) == 1 && a.v[0].key() == b.v[0].key() {
+					return true
+				}
+			}
+		}
+	}
+	for _, a := range e.args {
+		if c4dupLaterMark(a) {
+			return true
+		}
+	}
+	return false
+}
+
 // c4eliminatedMark: a marked term of a disjunction evaluates to bottom.
 func c4eliminatedMark(e *c4expr) bool {
+	if e.op == "&" {
+		// ... or is eliminated by the other operand of a unification
+		for k := 0; k < 2; k++ {
+			x, other := e.args[k], c4eval(e.args[1-k])
+			if x.op != "|" {
+				continue
+			}
+			for i, a := range x.args {
+				if x.marks[i] && len(c4survive(c4eval(a).v, other.v)) == 0 {
+					return true
+				}
+			}
+		}
+	}
 	if e.op == "|" {
 		for i, a := range e.args {
 			if e.marks[i] && len(c4eval(a).v) == 0 {
